@@ -38,6 +38,10 @@ struct Trial {
     hash_key: u64,
     /// run the computation twice on the same thread
     twice: bool,
+    /// first reconstruct another (large, different) event on the same thread: worker threads
+    /// of the vertex program process many events, so thread-local state must not leak
+    #[serde(default)]
+    after_other: bool,
 }
 
 #[derive(Clone, Debug, Serialize, Deserialize, PartialEq)]
@@ -172,16 +176,17 @@ impl Check for C11Check {
         let heavy = matches!(event, Kind::Fwd { .. } | Kind::Hits { .. });
         let k: Vec<u64> = (0..4).map(|_| r.next_u64()).collect();
         let mut trials = vec![
-            Trial { perm: Perm::Identity, hash_key: k[0], twice: true },
-            Trial { perm: Perm::Reversal, hash_key: k[1], twice: false },
-            Trial { perm: Perm::Shuffle(r.next_u64()), hash_key: k[2], twice: false },
-            Trial { perm: Perm::Shuffle(r.next_u64()), hash_key: k[3], twice: false },
-            Trial { perm: Perm::Identity, hash_key: k[3], twice: false },
-            Trial { perm: Perm::Rotate(r.usize(1, 50)), hash_key: k[1], twice: false },
+            Trial { perm: Perm::Identity, hash_key: k[0], twice: true, after_other: false },
+            Trial { perm: Perm::Reversal, hash_key: k[1], twice: false, after_other: false },
+            Trial { perm: Perm::Shuffle(r.next_u64()), hash_key: k[2], twice: false, after_other: false },
+            Trial { perm: Perm::Shuffle(r.next_u64()), hash_key: k[3], twice: false, after_other: false },
+            Trial { perm: Perm::Identity, hash_key: k[3], twice: false, after_other: false },
+            Trial { perm: Perm::Rotate(r.usize(1, 50)), hash_key: k[1], twice: false, after_other: false },
         ];
+        trials.push(Trial { perm: Perm::Identity, hash_key: k[2], twice: false, after_other: true });
         if heavy {
             for _ in 0..2 {
-                trials.push(Trial { perm: Perm::Transpose(r.usize(0, 500)), hash_key: *r.pick(&k), twice: false });
+                trials.push(Trial { perm: Perm::Transpose(r.usize(0, 500)), hash_key: *r.pick(&k), twice: false, after_other: false });
             }
         }
         serde_json::to_value(Scn { mode: mode.into(), seed, event, trials, all_transpositions: !heavy, child: i % 2 == 0 }).unwrap()
@@ -203,7 +208,7 @@ impl Check for C11Check {
         if scn.all_transpositions && banks.len() >= 2 && banks.len() <= 40 {
             let key = trials.first().map(|t| t.hash_key).unwrap_or(1);
             for i in 0..banks.len() - 1 {
-                trials.push(Trial { perm: Perm::Transpose(i), hash_key: key ^ (i as u64 % 3), twice: false });
+                trials.push(Trial { perm: Perm::Transpose(i), hash_key: key ^ (i as u64 % 3), twice: false, after_other: false });
             }
             stats.probe("adjacent_transpositions_exhaustive");
         }
@@ -225,7 +230,17 @@ impl Check for C11Check {
             hs.str(&format!("{:?}", t.perm)).u64(t.hash_key);
             stats.schedule(hs.finish());
             let twice = t.twice;
+            let other: Option<(u32, BankList)> = if t.after_other {
+                stats.probe("trials_after_other_event_on_same_thread");
+                // full ring of hits + a 40-wire block: larger contiguous blocks than most events have
+                Some(kind_banks(&Kind::Hits { pattern: 3, n: 256 }, scn.seed ^ 0x07E2))
+            } else {
+                None
+            };
             let res = with_hash_key(t.hash_key, || {
+                if let Some((orun, obanks)) = &other {
+                    let _ = digest(*orun, obanks);
+                }
                 let a = digest(run, &pb);
                 let b = if twice { Some(digest(run, &pb)) } else { None };
                 (a, b)
